@@ -1211,6 +1211,9 @@ func ruleC18IDsAreDataNotPatterns(c *Ctx) {
 			// ids are not taken apart at a separator their components may contain
 			if g.Pkg.Pkg.Path() == "strings" {
 				switch g.Name() {
+				case "EqualFold", "ToLower", "ToUpper", "ToTitle", "Title":
+					c.CallSites++
+					c.bad(trimPkgDirs(shortName(f))+"/strings."+g.Name(), u.ipos(i), "a key id / partition id is compared or indexed case-insensitively (strings."+g.Name()+"): ids are byte strings — two ids that differ in case are different partitions and different keys; folding them lets one partition read another's records, or caches one key under several spellings")
 				case "Split", "SplitN", "SplitAfter", "SplitAfterN", "Fields", "FieldsFunc", "Cut":
 					c.CallSites++
 					c.bad(trimPkgDirs(shortName(f))+"/strings."+g.Name(), u.ipos(i), "a key id / partition id is taken apart with strings."+g.Name()+": partition, service and product names may themselves contain the separator, so ids that follow the documented format are mis-parsed — records written by another region or another implementation are refused")
